@@ -745,6 +745,7 @@ type writes struct {
 	binReads map[string]types.Type // ghost lastreadof(T) possibly replaced
 	ints     map[string]bool       // integer ghosts possibly replaced
 	bools    map[string]bool       // boolean ghosts possibly replaced
+	layerParser bool               // a gopacket parser decodes into its registered layers
 }
 
 func newWrites() *writes {
@@ -1217,6 +1218,23 @@ func (ex *Exec) runLoopGhost(n ast.Node, label string, st *State, w *writes, vis
 func (ex *Exec) scanWrites(n ast.Node, info *types.Info) *writes {
 	w := newWrites()
 	ex.scanInto(n, info, w)
+	if w.layerParser && ex.top != nil && ex.top.Decl.Body != nil {
+		// the layers registered with the parser (and the list of decoded types) are written by DecodeLayers
+		ast.Inspect(ex.top.Decl.Body, func(x ast.Node) bool {
+			call, ok := x.(*ast.CallExpr)
+			if !ok {
+				return true
+			}
+			if se, ok := ast.Unparen(call.Fun).(*ast.SelectorExpr); ok && (se.Sel.Name == "NewDecodingLayerParser" || se.Sel.Name == "DecodeLayers") {
+				for _, a := range call.Args {
+					if u, ok := ast.Unparen(a).(*ast.UnaryExpr); ok && u.Op == token.AND {
+						ex.scanLHS(u.X, ex.top.Pkg.TypesInfo, w)
+					}
+				}
+			}
+			return true
+		})
+	}
 	return w
 }
 
@@ -1451,6 +1469,9 @@ func (ex *Exec) scanCall(call *ast.CallExpr, info *types.Info, w *writes, depth 
 			}
 			for k := range sub.bools {
 				w.bools[k] = true
+			}
+			if sub.layerParser {
+				w.layerParser = true
 			}
 			// callee locals are irrelevant; pointer-receiver/pointer params targeting caller locals:
 			for _, a := range call.Args {
